@@ -23,6 +23,7 @@ def main():
     base = tempfile.mkdtemp(prefix='gvt.', dir=os.environ.get('GV_TOP_BASE', '/tmp'))
     base = os.path.realpath(base)
     mounted = []
+    extra_dirs = []
     realisation = 'same-device'
     try:
         # one skeleton per boundary position k: tmpfs mounted on the directory at depth k (1-based), 0 = none
@@ -54,7 +55,19 @@ def main():
             if anc[-1]['root']:
                 break
             p = os.path.dirname(p)
+        # a store on another filesystem for Manifests that are symbolic links to files elsewhere
+        foreign = os.path.join(base, 'foreign')
+        os.makedirs(foreign)
+        r = subprocess.run(['mount', '-t', 'tmpfs', 'tmpfs', foreign], stderr=subprocess.PIPE)
+        if r.returncode == 0:
+            mounted.append(foreign)
+        elif os.path.isdir('/dev/shm') and os.stat('/dev/shm').st_dev != os.stat(base).st_dev:
+            foreign = tempfile.mkdtemp(prefix='gvt.', dir='/dev/shm')
+            extra_dirs.append(foreign)
+        same = os.path.join(base, 'same')
+        os.makedirs(same)
         out = []
+        serial = 0
         for c in cases:
             dirs = skel[c['boundary']]
             # (re)write the Manifest files of every level of this skeleton
@@ -67,6 +80,14 @@ def main():
                         os.unlink(q)
                 for n, spec in lv['files'].items():
                     q = os.path.join(d, n)
+                    if spec[0] == 'link':
+                        # the Manifest is a symbolic link to a file in the foreign / same-device store
+                        serial += 1
+                        target = os.path.join(foreign if spec[1] == 'foreign' else same, f't{serial % 50}')
+                        if os.path.lexists(target):
+                            os.unlink(target)
+                        os.symlink(target, q)
+                        q, spec = target, spec[2]
                     if spec[0] == 'text':
                         open(q, 'w', encoding='utf8').write(spec[1])
                     elif spec[0] == 'gz':
@@ -84,17 +105,28 @@ def main():
                 else:
                     rel = os.path.relpath(r, start).split('/')
                     res = ['ok', [sum(1 for x in rel if x == '..'), rel[-1]]]
-                    if os.path.realpath(r) != os.path.normpath(os.path.join(start, *rel)):
+                    if os.path.join(os.path.realpath(os.path.dirname(r)), os.path.basename(r)) != os.path.normpath(os.path.join(start, *rel)):
                         res = ['weird', r]
             except Exception as e:
                 res = ['err', type(e).__name__, getattr(e, 'errno', None)]
             devs = [os.stat(d).st_dev for d in dirs]
-            out.append({'res': res, 'devs': devs, 'comps': start.strip('/').split('/')})
+            fdevs = []
+            for d, lv in zip(dirs[1:], c['levels']):
+                fd = {}
+                for n in lv['files']:
+                    try:
+                        fd[n] = os.stat(os.path.join(d, n)).st_dev
+                    except OSError:
+                        pass
+                fdevs.append(fd)
+            out.append({'res': res, 'devs': devs, 'fdevs': fdevs, 'comps': start.strip('/').split('/')})
         print(json.dumps({'results': out, 'ancestors': anc, 'base': base, 'realisation': realisation}))
     finally:
         for m in reversed(mounted):
             subprocess.run(['umount', '-l', m], stderr=subprocess.DEVNULL)
         shutil.rmtree(base, ignore_errors=True)
+        for d in extra_dirs:
+            shutil.rmtree(d, ignore_errors=True)
 
 
 if __name__ == '__main__':
